@@ -127,10 +127,10 @@ Definition scaledp (p : pspec) : bool := negb ((p_slope p =? 1) && (p_inter p =?
    with (1,0) and astype(copy=False) to the same dtype return their argument. *)
 Definition proxy_read (h : heap) (f : file) (p : pspec) (dt : option dtype) (sl : slicer)
   : (heap * nat) + err :=
-  if (length (f_vals f) <? size (p_shape p))%nat then inr EShortFile else
   match sel_off sl (p_shape p) with
-  | None => inr EIndex
+  | None => inr EIndex                                   (* canonical_slicers, before any read *)
   | Some (sh, off) =>
+    if (length (f_vals f) <? size (p_shape p))%nat then inr EShortFile else
     let v := firstn (size sh) (skipn off (firstn (size (p_shape p)) (f_vals f))) in
     (* array_from_file: memmap mode 'c' when mmap and the file is not compressed, else a
        bytearray-backed array - both writable, both a new object; fileslice: read-only *)
@@ -282,7 +282,8 @@ Definition init_proxy (f : file) (h0 : hdr) (mm : bool) (expired : bool) : cstat
    reads").  There is no header, no frozen spec, no raw file. *)
 Inductive skind :=
 | SArr (own : nat)
-| SProxy (sh : list nat) (vals : list Z) (ndt : dtype) (scaled mapped : bool).
+| SProxy (sh : list nat) (vals : list Z) (ndt : dtype) (scaled mapped : bool)
+| SBroken (sh : list nat).      (* the file is shorter than its header says: every read is refused *)
 Record sstate := mkS { s_heap : heap; s_kind : skind; s_cache : option (nat * dtype); s_dcache : option nat;
                        s_last : option nat; s_expired : bool }.
 
@@ -309,6 +310,7 @@ Definition spec_fresh (st : sstate) (dt : option dtype) : (heap * nat) + err :=
                 else inl (alloc (s_heap st) (obj_vals (s_heap st) ob) (o_shape ob) d true false)
     end
   | SProxy sh vals ndt sc mp => spec_read (s_heap st) sh vals ndt sc mp dt SFull
+  | SBroken sh => inr EShortFile
   end.
 
 Definition spec_slice (st : sstate) (sl : slicer) : (heap * nat) + err :=
@@ -320,6 +322,7 @@ Definition spec_slice (st : sstate) (sl : slicer) : (heap * nat) + err :=
     | Some (sh, off) => inl (alloc_view (s_heap st) ob off sh)
     end
   | SProxy sh vals ndt sc mp => spec_read (s_heap st) sh vals ndt sc mp None sl
+  | SBroken sh => match sel_off sl sh with None => inr EIndex | Some _ => inr EShortFile end
   end.
 
 Definition s_with (st : sstate) (h : heap) (o : nat) : sstate :=
@@ -364,7 +367,7 @@ Definition sstep (st : sstate) (o : op) : sstate * out :=
     end
   | InMemory => (st, OBool (match s_kind st with
                             | SArr _ => true
-                            | SProxy _ _ _ _ _ => is_some (s_cache st) || is_some (s_dcache st)
+                            | _ => is_some (s_cache st) || is_some (s_dcache st)
                             end))
   | GetData c =>
     if s_expired st then (st, ORefused EExpired) else
@@ -388,16 +391,18 @@ Fixpoint srun (st : sstate) (ops : list op) : sstate * list out :=
 
 (* the abstraction: forget headers, the frozen spec and the raw file; a proxy's values are the
    stored values scaled by the spec the proxy copied at construction *)
+Definition scale_vals (p : pspec) (f : file) : list Z :=
+  map (fun x => x * p_slope p + p_inter p) (firstn (size (p_shape p)) (f_vals f)).
+Definition abs_kind (d : dataobj) (f : file) : skind :=
+  match d with
+  | DArr o => SArr o
+  | DProxy p =>
+    if (length (f_vals f) <? size (p_shape p))%nat then SBroken (p_shape p) else
+    if scaledp p then SProxy (p_shape p) (scale_vals p f) F8 true (p_mmap p && negb (f_gz f))
+    else SProxy (p_shape p) (firstn (size (p_shape p)) (f_vals f)) (p_dt p) false (p_mmap p && negb (f_gz f))
+  end.
 Definition abs (st : cstate) : sstate :=
-  mkS (c_heap st)
-      (match c_dobj st with
-       | DArr o => SArr o
-       | DProxy p =>
-         let raw := firstn (size (p_shape p)) (f_vals (c_file st)) in
-         if scaledp p then SProxy (p_shape p) (map (fun x => x * p_slope p + p_inter p) raw) F8 true
-                                  (p_mmap p && negb (f_gz (c_file st)))
-         else SProxy (p_shape p) raw (p_dt p) false (p_mmap p && negb (f_gz (c_file st)))
-       end)
+  mkS (c_heap st) (abs_kind (c_dobj st) (c_file st))
       (match c_fcache st with Some k => Some (k, o_dt (get_obj (c_heap st) k)) | None => None end)
       (c_dcache st) (c_last st) (c_expired st).
 
